@@ -1306,6 +1306,24 @@ def gen_ldap(rng, tier):
                 else:
                     del o2[k]
             items.append({'k': 'ldap', 'cls': cls, 'o': o2, 'wf': True, 'near': True})
+        elif r < 0.80:
+            # create, then UPDATE with some scalar values changed - among them changes of letter case only -,
+            # then read: the directory must hold what was written last
+            o2 = json.loads(json.dumps(o))
+            changed = 0
+            for k in sorted(o2):
+                v = o2[k]
+                if isinstance(v, str) and v.swapcase() != v and rng.random() < 0.6:
+                    o2[k] = v.swapcase()
+                    changed += 1
+                elif isinstance(v, list) and v and all(isinstance(x, str) for x in v) and \
+                        any(x.swapcase() != x for x in v) and rng.random() < 0.5:
+                    o2[k] = [x.swapcase() for x in v]
+                    changed += 1
+            if changed:
+                items.append({'k': 'ldapupd', 'cls': cls, 'o': o, 'o2': o2, 'wf': True})
+            else:
+                items.append({'k': 'ldap', 'cls': cls, 'o': o, 'wf': True})
         elif r < 0.88:
             items.append({'k': 'ldap', 'cls': cls, 'o': _lbreak(rng, cls, o), 'wf': False})
         else:
@@ -1471,6 +1489,46 @@ def run_ldap(items, run, mon):
                 mon.hit('ldap-dn-roundtrip', site, 'id %r -> dn %r -> id %r' % (want, dn, back))
             else:
                 mon.inj('ldap-dn:' + cls, site, dn, want)
+                mon.nt += 1
+            continue
+        if it['k'] == 'ldapupd':
+            # the update path of the admin objects: Admin.update diffs the stored entry against the new one
+            # (`_diff_entries`) and sends the modifications; applied to the stored entry as the directory would
+            import copy
+            import ldap3
+            a_ = _lcls(cls)(None)
+            run.tags.add('ldap-update:' + cls)
+            try:
+                stored = _ldap._remove_empty(a_.to_entry(copy.deepcopy(it['o'])))      # pylint: disable=protected-access
+                new_e = _ldap._remove_empty(a_.to_entry(copy.deepcopy(it['o2'])))      # pylint: disable=protected-access
+                diff = _ldap._diff_entries(stored, new_e)                               # pylint: disable=protected-access
+                for attr, mods in diff.items():
+                    for op_, vals in mods:
+                        if op_ == ldap3.MODIFY_REPLACE:
+                            stored[attr] = list(vals)
+                        elif op_ == ldap3.MODIFY_ADD:
+                            stored[attr] = list(stored.get(attr, [])) + list(vals)
+                        elif op_ == ldap3.MODIFY_DELETE:
+                            stored.pop(attr, None)
+                back = a_.from_entry(copy.deepcopy(stored))
+            except Exception as exc:  # pylint: disable=broad-except
+                mon.hit('ldap-update', LCLS[cls] + '.update', 'update of %r to %r raised %r' % (it['o'], it['o2'], exc))
+                continue
+            def _unordered(x):
+                # the values of a multi-valued attribute are a SET in the directory: an update that only permutes
+                # them changes nothing
+                if isinstance(x, dict):
+                    return {k_: _unordered(v_) for k_, v_ in x.items()}
+                if isinstance(x, list) and not any(isinstance(v_, (dict, list)) for v_ in x):
+                    return sorted(x, key=repr)
+                if isinstance(x, list):
+                    return [_unordered(v_) for v_ in x]
+                return x
+            lost = _subsumed(_unordered(it['o2']), _unordered(back))
+            if lost:
+                mon.hit('ldap-update', LCLS[cls] + '.update',
+                        'created %r, updated to %r, read %r: %s' % (it['o'], it['o2'], back, lost))
+            else:
                 mon.nt += 1
             continue
         if it['k'] == 'ldap':
